@@ -42,6 +42,20 @@ func subRace(suite, tier string, seed int64) {
 		runTeardownSuite(rep, tier, seed, "C14")
 	case "C08":
 		runC08(rep, tier, seed)
+	case "CX":
+		// cross-module workloads (rounds 6 and 7 of the seeded changes): concurrently panicking closures (the recover
+		// path of utils.Call on many goroutines at once), many concurrent invocations, overlapping closure-carrying
+		// calls, error kinds, many links decoding never-seen function names at the same time
+		for _, api := range apis() {
+			panickingClosures(rep, "C20", api, 16, true)
+			closureRendezvous(rep, "C20", api, 24)
+			overlappingClosureCalls(rep, "C20", api)
+			errKindScenarios(rep, "C20", jsonRaw(), api)
+		}
+		for _, m := range manyLinksNewNames(4, 200) {
+			rep.addViolation("property", "C20:many-links", m, nil)
+		}
+		rep.Evaluations++
 	}
 	fmt.Printf("%d\n", rep.Evaluations)
 }
@@ -56,7 +70,7 @@ func runC20(rep *Report, tier string, seed int64) {
 	}
 	dir, _ := os.MkdirTemp("", "verif-race-")
 	defer os.RemoveAll(dir)
-	suites := []string{"C01", "C02", "C03", "C08", "C10", "C11", "C12", "C13", "C14"}
+	suites := []string{"C01", "C02", "C03", "C08", "C10", "C11", "C12", "C13", "C14", "CX"}
 	for _, s := range suites {
 		logp := filepath.Join(dir, "race-"+s)
 		cmd := exec.Command(bin, "-tier", tier, "-seed", fmt.Sprint(seed), "-sub", "race", s)
